@@ -235,8 +235,9 @@ func (s *clusterState) UpsertLocal(key, value string) {
 
 	existing, ok := state.Entries[key]
 	if ok {
-		// If the entry is unchanged do nothing.
-		if existing.Value == value {
+		// If the entry is unchanged do nothing. A deleted entry must be
+		// re-created even if the new value matches the tombstone value.
+		if existing.Value == value && !existing.Deleted {
 			return
 		}
 	}
